@@ -374,6 +374,10 @@ func (r *runner) build(n *core.Node, t Tx) (pb.Transaction, map[string]interface
 				ibtp.Payload = []byte{0xff, 0x01, 0x02}
 			case "nopayload":
 				ibtp.Payload = nil
+			case "content0": // a bare pb.Content without arguments (what the hub's own broker unpacks when the hub is the destination)
+				ibtp.Payload, _ = (&pb.Content{Func: "f"}).Marshal()
+			case "content1":
+				ibtp.Payload, _ = (&pb.Content{Func: "f", Args: [][]byte{[]byte("x")}}).Marshal()
 			case "group":
 				ibtp.Group = &pb.StringUint64Map{Keys: []string{dst, "x"}, Vals: []uint64{1}}
 			}
@@ -395,7 +399,7 @@ func (r *runner) build(n *core.Node, t Tx) (pb.Transaction, map[string]interface
 		srcLocal := strings.HasPrefix(src, n.BxhID()+":")
 		dstLocal := strings.HasPrefix(dst, n.BxhID()+":")
 		kk := "ibtp"
-		if t.Mal != "" && t.Mal != "payload" && t.Mal != "nopayload" { // (the payload is opaque to the hub: such an IBTP is an ordinary one)
+		if t.Mal != "" && t.Mal != "payload" && t.Mal != "nopayload" && t.Mal != "content0" && t.Mal != "content1" { // (the payload is opaque to the hub: such an IBTP is an ordinary one)
 			kk = "ibtpmal" // judged by the generic block formulas only (C08 alive, C07 no effect when failed, C02 delivery)
 		}
 		d := map[string]interface{}{"k": kk, "from": from.Addr.String(), "to": tx.GetTo().String(), "cls": "ibtp", "badsig": false, "m": t.Mal,
@@ -1119,6 +1123,9 @@ func genPlan(rng *rand.Rand, name string, mode string) *Plan {
 			if rng.Intn(25) == 0 {
 				s = "chainZ:svc9" // unregistered source
 			}
+			if rng.Intn(14) == 0 {
+				d = "1356:0x0000000000000000000000000000000000000abc" // a service of the hub itself: executed by the hub's own broker
+			}
 			if len(p.Unord) > 0 && rng.Intn(3) == 0 {
 				d = p.Unord[0]
 			}
@@ -1248,7 +1255,7 @@ func genPlan(rng *rand.Rand, name string, mode string) *Plan {
 					}
 					txs = append(txs, Tx{K: "ibtp", Src: s, Dst: d, Idx: idx, Typ: typ, Proof: proof, From: from})
 				} else if rng.Intn(3) == 0 {
-					mal := []string{"src", "dst", "type", "payload", "nopayload", "group"}[rng.Intn(6)]
+					mal := []string{"src", "dst", "type", "payload", "nopayload", "group", "content0", "content1"}[rng.Intn(8)]
 					txs = append(txs, Tx{K: "ibtp", Src: s, Dst: d, Idx: next[pair] + uint64(rng.Intn(2)), Typ: []string{"REQ", "REQ", "OK"}[rng.Intn(3)], T: timeouts[rng.Intn(len(timeouts))], Proof: "ok", From: from, Mal: mal})
 				} else if rng.Intn(3) == 0 {
 					m := []string{"transfer", "create", "store", "store", "lowgas"}[rng.Intn(5)]
